@@ -736,7 +736,7 @@ func (ts *TreeSpec) accessor(e *Engine, s *State, x ssa.CallInstruction, fn *ssa
 		}
 		return true
 	case "GetText":
-		e.bindResult(s, x, Value{App("tok.ctxtext", SStr, ctx)})
+		e.bindResult(s, x, Value{tokText(s, App("tok.ctxtext", SStr, ctx))})
 		return true
 	case "GetChildren":
 		e.bindResult(s, x, ts.children(e, s, cs, ctx))
@@ -839,6 +839,23 @@ func (ts *TreeSpec) accessor(e *Engine, s *State, x ssa.CallInstruction, fn *ssa
 	s.assume(Implies(pres, Ne(node, Zero)))
 	ts.depthFact(s, ctx, node)
 	ts.assumeAlternatives(s, cs, ctx)
+	// a mandatory (x | y | ...) group inside the sequence: one of its members is present
+	for _, g := range cs.sumGroups {
+		single := true
+		for _, nm := range g {
+			if cs.counts[nm].many {
+				single = false
+			}
+		}
+		if !single {
+			continue
+		}
+		var ds []*Term
+		for _, nm := range g {
+			ds = append(ds, ts.present(cs, nm, ctx))
+		}
+		s.assume(Or(ds...))
+	}
 	if isTok {
 		e.bindResult(s, x, Value{Ite(pres, e.tokenNodeTag(), Zero), Ite(pres, node, Zero)})
 		ts.tokenFacts(e, s, elem, App("tok.text", SStr, App("tok.symbol", SInt, node)), pres)
@@ -885,6 +902,7 @@ func (ts *TreeSpec) labelPresent(cs *ctxSpec, lbl string, ctx *Term) *Term {
 
 // tokenFacts: lexer-derived facts about the text of a token of type tok.
 func (ts *TreeSpec) tokenFacts(e *Engine, s *State, tok string, text *Term, cond *Term) {
+	s.assume(Implies(cond, App("istoktext", SBool, text)))
 	if m := ts.tokMin[tok]; m > 0 {
 		s.assume(Implies(cond, Le(Int(int64(m)), StrLen(text))))
 	}
